@@ -14,7 +14,7 @@ static vh_key_t K1, K2, KW, KEC, KED, KRSA;
 static jwk_set_t *kset;
 static const jwk_item_t *I1, *I1A, *I2, *IW, *IECpriv, *IECpub, *IED, *IRSA, *IRSApub;
 
-#define NTOK 44
+#define NTOK 45
 static char *TOK[NTOK];
 static const char *TOKNAME[NTOK] = { "NULL", "empty", "no-dots", "one-dot", "header-not-base64", "header-not-json", "unknown-alg", "missing-alg",
 	"non-string-alg", "payload-not-json", "expired", "not-yet-valid", "wrong-iss", "alg-none-unsigned", "wrong-alg-HS384", "bad-signature",
@@ -23,7 +23,8 @@ static const char *TOKNAME[NTOK] = { "NULL", "empty", "no-dots", "one-dot", "hea
 	"payload-json-array", "payload-json-array-signed-valid", "header-json-array", "payload-empty-object-unsigned",
 	"rs256-valid", "rs256-bad-signature",
 	"aud-is-list-with-x", "aud-is-list-without-x", "iss-is-number", "sub-is-null", "aud-is-null", "iss-is-list", "iss-sub-aud-right", "sub-wrong", "aud-is-object",
-	"kid-ecpub(valid, callback picks the public EC JWK)", "kid-ecpriv(valid, callback picks the private EC JWK)" };
+	"kid-ecpub(valid, callback picks the public EC JWK)", "kid-ecpriv(valid, callback picks the private EC JWK)",
+	"valid-until-the-next-second(verified on a ticking clock)" };
 
 static char *mk(const vh_key_t *k, int alg, const char *hdr, const char *pl) { return vh_ref_token(k, alg, hdr, pl); }
 
@@ -81,6 +82,9 @@ static void build_pool(void)
 	 * any verification with a private key has happened in the process) */
 	TOK[42] = mk(&KEC, JWT_ALG_ES256, "{\"alg\":\"ES256\",\"kid\":\"ecpub\"}", "{\"iss\":\"me\",\"aud\":\"x\"}");
 	TOK[43] = mk(&KEC, JWT_ALG_ES256, "{\"alg\":\"ES256\",\"kid\":\"ecpriv\"}", "{\"iss\":\"me\",\"aud\":\"x\"}");
+	/* expires one second after the clock value of the histories and becomes valid exactly then: accepted at that reading, refused one second
+	 * earlier or later; it is verified on a clock that advances with every reading, so a verification that reads the clock more than once shows */
+	{ char pl[160]; snprintf(pl, sizeof(pl), "{\"iss\":\"me\",\"aud\":\"x\",\"exp\":%ld,\"nbf\":%ld}", (long)NOW + 1, (long)NOW); TOK[44] = mk(&K1, JWT_ALG_HS256, H, pl); }
 }
 
 /* checker callback: select key by kid */
@@ -139,11 +143,16 @@ static void verify_step(long hist, int step, int cfg, jwt_checker_t *reused, int
 		size_t need = strlen(TOK[tok]) + 1;
 		if (need > rcap) { size_t m = 0; for (int q = 0; q < NTOK; q++) if (TOK[q] && strlen(TOK[q]) + 1 > m) m = strlen(TOK[q]) + 1; rbuf = realloc(rbuf, m); rcap = m; }
 		memcpy(rbuf, TOK[tok], need);
+		if (tok == 44 && odd_clock < 0) vh_tick = 1;
 		rr = jwt_checker_verify(reused, rbuf);
+		vh_tick = 0;
 	} else
 		rr = jwt_checker_verify(reused, TOK[tok]);
 	er = jwt_checker_error(reused); snprintf(mr, sizeof(mr), "%.64s", jwt_checker_error_msg(reused));
+	vh_now = odd_clock >= 0 ? (time_t)ODD_CLOCK[odd_clock] : NOW;	/* the twin reads the same clock from the start */
+	if (tok == 44 && odd_clock < 0) vh_tick = 1;
 	rf = jwt_checker_verify(fresh, TOK[tok]);
+	vh_tick = 0;
 	ef = jwt_checker_error(fresh); snprintf(mf, sizeof(mf), "%.64s", jwt_checker_error_msg(fresh));
 	printf("[\"V\",%ld,%d,%d,%d,%d,%d,%d,", hist, step, cfg, tok, clear, rr, er); put_msg(mr);
 	printf(",%d,%d,", rf, ef); put_msg(mf);
